@@ -25,6 +25,18 @@ Theorem C29_identity_preserved :
 Proof. exact identity_preserved_table. Qed.
 Print Assumptions C29_identity_preserved.
 
+(* every constructor parameter of the job, submitter, worker, … (the list is read off the live signatures) is
+   restored, provided the classes do not declare any of them transient — which the driver checks on the
+   live table (config_safeb is part of the specification evaluated on every case) *)
+Theorem C29_required_survive :
+  forall t cp req c l v',
+    (forall n m, cp n = Some m -> m = n) -> push_wfb t = true -> config_safeb t req = true ->
+    rt (table t) cp (VObj c l) = Some v' ->
+    exists l', v' = VObj c l' /\
+      forall ks k, In (c, ks) req -> In k ks -> opt_rel (survives (table t)) (lookup k l) (lookup k l').
+Proof. exact required_survive. Qed.
+Print Assumptions C29_required_survive.
+
 (* the round trip is defined exactly when no live resource sits outside the attributes __getstate__ removes
    or blanks (cloudpickle never failing on plain data) *)
 Theorem C29_pickling_defined_iff :
